@@ -62,7 +62,7 @@ def run(ctx):
         results = list(ex.map(one, CONFIGS))
     for cfg, (r, m, r2, nblank) in zip(CONFIGS, results):
         evaluations += len(allfiles)
-        a_only, m_only = worlds.compare(r["diags"], m["diags"], ("IMM", "CTOR", "TONL", "PKGO"))
+        a_only, m_only = worlds.compare(r["diags"], m["diags"], worlds.MODELLED)
         inside = [(x["file"], x["line"], x["code"]) for x in r["diags"] if skipped(cfg, os.path.join(root, x["file"]))]
         tonl_in_tests = [(x["file"], x["line"], x["code"]) for x in r["diags"] if x["file"].endswith("_test.go") and x["code"].startswith("TONL")]
         k1, k2 = worlds.keyset(r["diags"]), worlds.keyset(r2["diags"])
